@@ -102,10 +102,17 @@ class NormalForms(unittest.TestCase):
         from vstat.nf import Undecided
         sp = Space()
         try:
-            r = compare(sp, self.nf("kernel_d", sp), self.nf("kernel_a", sp))
+            r = compare(sp, self.nf("kernel_e", sp), self.nf("kernel_a", sp))
         except Undecided:
             r = None
         self.assertIsNone(r)
+
+    def test_helper_outside_the_inventory_is_looked_through(self):
+        # `special` is a package function that the function inventory does not list: engine A runs its body in place, so the
+        # kernel is seen as r**2 * (r - 1) - a definite mismatch, not an uninterpreted symbol
+        from vstat.nf import Space, compare
+        sp = Space()
+        self.assertIs(compare(sp, self.nf("kernel_d", sp), self.nf("kernel_a", sp)), False)
 
 
 class Intervals(unittest.TestCase):
